@@ -703,6 +703,7 @@ func main() {
 			{"gtaRetry", common.FuncHash(fsetG, fg, "Interpreter", "gtaRetry")},
 			{"ast: case token.VAR", nodeHash(astClause)},
 			{"splitVarSpecs", common.FuncHash(fsetA, fa, "", "splitVarSpecs")},
+			{"compDefineX", common.FuncHash(fsetC, fc, "", "compDefineX")},
 		}
 		var dhs []string
 		for _, kv := range dh {
